@@ -130,8 +130,33 @@ def d_c12_emptyyaml():
         ampycloud.reset_prms()
 
 
+def _c10_variant(make):
+    from ampycloud.utils import mocker
+    base = mocker.canonical_demo_data()
+    with warnings.catch_warnings():
+        warnings.simplefilter('ignore')
+        ref = ampycloud.run(base).metar_msg()
+        try:
+            got = ampycloud.run(make(base.copy())).metar_msg()
+        except Exception as e:
+            return f'DEFECT: {type(e).__name__}: {str(e)[:80]}'
+    return 'ok' if got == ref else f'DEFECT: {got} instead of {ref}'
+
+
+def d_c10_namedindex():
+    return _c10_variant(lambda df: df.set_index('dt', drop=False))
+
+
+def d_c10_duplabels():
+    def make(df):
+        df.insert(0, 'note', 1)
+        df.insert(0, 'note', 2, allow_duplicates=True)
+        return df
+    return _c10_variant(make)
+
+
 if __name__ == '__main__':
-    for f in (d_c14, d_c10, d_c05, d_c08_bundle, d_c08_empty, d_c06_layers, d_c06_groups, d_c20_emptyplot, d_c12_emptyyaml):
+    for f in (d_c14, d_c10, d_c05, d_c08_bundle, d_c08_empty, d_c06_layers, d_c06_groups, d_c20_emptyplot, d_c12_emptyyaml, d_c10_namedindex, d_c10_duplabels):
         try:
             print(f.__name__, '->', f())
         except Exception as e:
